@@ -1632,9 +1632,13 @@ def Mandatory(cls, **_kwargs):
     if issubclass(cls, Unicode):
         kwargs.update(dict(min_len=1))
 
-    elif issubclass(cls, Array):
-        (k,v), = cls._type_info.items()
-        if v.Attributes.min_occurs == 0:
-            cls._type_info[k] = Mandatory(v)
+    retval = cls.customize(**kwargs)
 
-    return cls.customize(**kwargs)
+    if issubclass(cls, Array):
+        # customize() gave retval its own copy of the type info. the array type
+        # that was passed in must stay as it is.
+        (k,v), = retval._type_info.items()
+        if v.Attributes.min_occurs == 0:
+            retval._type_info[k] = Mandatory(v)
+
+    return retval
